@@ -1,1 +1,2 @@
 $(eval $(call HARNESS,fuzz_c14_x86,fuzzrel,-fsanitize=fuzzer,$(ORACLE_LD),$(B)/oracle/llvm_mc.o))
+$(eval $(call HARNESS,fuzz_c14_a64,fuzzrel,-fsanitize=fuzzer,$(ORACLE_LD),$(B)/oracle/llvm_mc.o))
